@@ -350,13 +350,16 @@ impl TransactionBuilder {
 
         self.outputs.last_mut().unwrap().value += value;
 
-        if benefit > deficit {
-          tprintln!("added {value} sat input to cover {deficit} sat deficit");
-          deficit = Amount::ZERO;
-        } else {
-          tprintln!("added {value} sat input to reduce {deficit} sat deficit by {benefit} sat");
-          deficit -= benefit;
-        }
+        tprintln!("added {value} sat input to reduce {deficit} sat deficit by about {benefit} sat");
+
+        // recompute the deficit from the fee of the transaction as it now
+        // stands, since an additional input does not always weigh exactly
+        // `ADDITIONAL_INPUT_VBYTES`
+        deficit = min_value
+          .checked_add(self.estimate_fee())
+          .ok_or(Error::ValueOverflow)?
+          .checked_sub(self.outputs.last().unwrap().value)
+          .unwrap_or(Amount::ZERO);
       }
     }
 
